@@ -71,6 +71,8 @@ type Drawing struct {
 	Others  ShapeList
 	Named   ShapeByName
 	Lonely  Lonely
+	Layers  []Layer
+	Stacks  map[string]ShapeList
 	Setting Settings
 }
 
